@@ -554,6 +554,13 @@ class _Alias:
             if ln in SHALLOW_COPY_FUNCS and len(e.args) >= 1 and isinstance(f, (ast.Name, ast.Attribute)):
                 b = self.shared(e.args[0], env, stack)
                 return None if b is None else (b[0], b[1] + 1, b[2])
+            if isinstance(f, ast.Attribute) and ln == "get" and 1 <= len(e.args) <= 2 and not e.keywords:
+                # d.get(k[, default]) shares what d[k] shares, or what the default does
+                cands = [self.shared(ast.Subscript(value=f.value, slice=e.args[0], ctx=ast.Load()), env, stack)]
+                if len(e.args) == 2:
+                    cands.append(self.shared(e.args[1], env, stack))
+                cands = [c for c in cands if c is not None]
+                return min(cands, key=lambda c: c[1]) if cands else None
             if ln in SCALAR_FUNCS or ln in FRESH_CTORS:
                 return None
             if isinstance(f, ast.Attribute) and ln in FRESH_RESULT_METHODS:
